@@ -164,4 +164,71 @@ example : rlpDecodeList [0xf8, 0x01, 0x05] = .err .nonCanonical := by decide
 example : rlpDecodeList [0xc4, 0x84, 0x64, 0x6f, 0x67] = .err .incompleteInput := by decide
 example : rlpDecodeList [0xc1, 0x05, 0x00] = .err .trailingBytes := by decide
 
+/-! ## The executable oracles used by the `rlp` driver decide exactly the declarative spec -/
+
+/-- `specDecodeString` (search over header lengths + reference encoder) returns `s` exactly when the
+    input is the canonical encoding of `s` (of supported size). -/
+theorem specDecodeString_iff (inp s : Bytes) :
+    specDecodeString inp = some s ↔ (inp = encodeString s ∧ s.length ≤ maxLongLength) :=
+  Verif.Proofs.RlpExact.specDecodeString_iff inp s
+
+example : specDecodeString [0x83, 0x64, 0x6f, 0x67] = some [0x64, 0x6f, 0x67] := by decide
+example : specDecodeString [0x81, 0x05] = none := by decide
+example : specDecodeString (encodeString (List.replicate 56 0x61)) = some (List.replicate 56 0x61) :=
+  (specDecodeString_iff _ _).mpr ⟨rfl, by decide⟩
+
+/-- `isFrameB` decides `IsFrame`. -/
+theorem isFrameB_iff (f : Bytes) : isFrameB f = true ↔ IsFrame f :=
+  Verif.Proofs.RlpExact.isFrameB_iff f
+
+example : isFrameB [0x83, 0x64, 0x6f, 0x67] = true ∧ isFrameB [0x83, 0x64, 0x6f] = false := by decide
+
+/-- `specDecodeList` (header search + backtracking frame splitter) returns `items` exactly when the
+    input is the canonical encoding of that sequence of frames (of supported total size); in
+    particular the split of a payload into frames is unique. -/
+theorem specDecodeList_iff (inp : Bytes) (items : List Bytes) :
+    specDecodeList inp = some items ↔
+      (inp = encodeList items ∧ (∀ f ∈ items, IsFrame f) ∧ items.flatten.length ≤ maxLongLength) :=
+  Verif.Proofs.RlpExact.specDecodeList_iff inp items
+
+example : specDecodeList [0xc6, 0x83, 0x64, 0x6f, 0x67, 0x05, 0xc0] =
+    some [[0x83, 0x64, 0x6f, 0x67], [0x05], [0xc0]] := by decide
+example : specDecodeList [0xc3, 0x83, 0x64, 0x6f, 0x67] = none := by decide
+
+/-- Consequently the wrappers of the model and the oracles coincide on every input: a value exactly
+    where the oracle has one (the same value), a user error everywhere else. -/
+theorem rlpDecodeString_eq_spec (inp : Bytes) :
+    (∀ s, rlpDecodeString inp = .ok s ↔ specDecodeString inp = some s) ∧
+    (specDecodeString inp = none → ∃ e, rlpDecodeString inp = .err e) := by
+  have key : ∀ s, rlpDecodeString inp = .ok s ↔ specDecodeString inp = some s := by
+    intro s
+    rw [specDecodeString_iff]
+    constructor
+    · intro h; exact ⟨string_rejects_rest inp s h, string_accepted_size inp s h⟩
+    · rintro ⟨rfl, hs⟩; exact string_accepts_canonical s hs
+  refine ⟨key, fun hnone => ?_⟩
+  rcases rlpDecodeString_no_panic inp with ⟨s, hs⟩ | he
+  · rw [(key s).mp hs] at hnone; cases hnone
+  · exact he
+
+theorem rlpDecodeList_eq_spec (inp : Bytes) :
+    (∀ items, rlpDecodeList inp = .ok items ↔ specDecodeList inp = some items) ∧
+    (specDecodeList inp = none → ∃ e, rlpDecodeList inp = .err e) := by
+  have key : ∀ items, rlpDecodeList inp = .ok items ↔ specDecodeList inp = some items := by
+    intro items
+    rw [specDecodeList_iff]
+    constructor
+    · intro h
+      exact ⟨(list_rejects_rest inp items h).1, (list_rejects_rest inp items h).2, list_accepted_size inp items h⟩
+    · rintro ⟨rfl, hfr, hlen⟩; exact list_accepts_canonical items hfr hlen
+  refine ⟨key, fun hnone => ?_⟩
+  rcases rlpDecodeList_no_panic inp with ⟨s, hs⟩ | he
+  · rw [(key s).mp hs] at hnone; cases hnone
+  · exact he
+
+example : rlpDecodeList [0xc4, 0x83, 0x64, 0x6f, 0x67] = .ok [[0x83, 0x64, 0x6f, 0x67]] ∧
+    specDecodeList [0xc4, 0x83, 0x64, 0x6f, 0x67] = some [[0x83, 0x64, 0x6f, 0x67]] := by decide
+example : specDecodeString [0xb8, 0x01, 0x61] = none ∧ rlpDecodeString [0xb8, 0x01, 0x61] = .err .nonCanonical := by
+  decide
+
 end Verif.Properties.C46
